@@ -50,6 +50,33 @@ class Count(str):
     pass
 
 
+def concat_axis(c: ast.Call, value=None):
+    """(parts, where) for a call that puts 2-D (sample, draws) blocks together: np.concatenate(parts, axis) with the axis given by
+    keyword or as second positional argument, np.hstack / np.column_stack (axis 1 of 2-D arrays), np.vstack / np.row_stack (axis 0).
+    where: 'beside' (axis 1, or -1: the last of two axes), 'below' (axis 0, or -2, or no axis: the default is 0), None when the axis
+    is not a constant the rule can read.  Not such a call: None."""
+    name = (dotted(c.func) or '')
+    if not name.startswith(('np.', 'numpy.')) or not c.args or any(isinstance(a, ast.Starred) for a in c.args) or any(k.arg is None for k in c.keywords):
+        return None
+    last = name.split('.', 1)[1]
+    if last in ('hstack', 'column_stack'):
+        return c.args[0], 'beside'
+    if last in ('vstack', 'row_stack'):
+        return c.args[0], 'below'
+    if last != 'concatenate':
+        return None
+    ax = next((k.value for k in c.keywords if k.arg == 'axis'), c.args[1] if len(c.args) > 1 else None)
+    if ax is None:
+        return c.args[0], 'below'
+    try:
+        v = value(ax) if value is not None else const_value(ax)
+    except (ValueError, AnalysisError):
+        return c.args[0], None
+    if isinstance(v, bool) or not isinstance(v, int):
+        return c.args[0], None
+    return c.args[0], 'beside' if v in (1, -1) else 'below' if v in (0, -2) else None
+
+
 class Interp:
     """Constant propagation through the helpers of native_draws.py."""
 
@@ -178,23 +205,23 @@ class Interp:
                 return Count('N/2') if l == 'N' else Count(f'({l})/2')
             if isinstance(l, (int, float)) and isinstance(r, (int, float)):
                 return const_value(e)
-        if isinstance(e, ast.Tuple):
+        if isinstance(e, (ast.Tuple, ast.List)):
             return tuple(self.ev(x, env, f) for x in e.elts)
         if isinstance(e, ast.Call):
             name = dotted(e.func) or ''
             if name == 'int' and len(e.args) == 1:
                 return self.ev(e.args[0], env, f)
-            if name in ('np.concatenate', 'numpy.concatenate'):
-                parts = self.ev(e.args[0], env, f)
-                axis = None
-                for k in e.keywords:
-                    if k.arg == 'axis':
-                        axis = self.ev(k.value, env, f)
+            cat = concat_axis(e, lambda a: self.ev(a, env, f))
+            if cat is not None:
+                parts = self.ev(cat[0], env, f)
                 if not (isinstance(parts, tuple) and len(parts) == 2 and isinstance(parts[0], Draws)):
                     self.fail(e, 'concatenate of something else than (d, mirror of d)')
                 d, m = parts
-                if axis != 1:
-                    return replace(d, dist=f'{d.dist}-concatenated-along-axis-{axis}')
+                # the arrays of these generators are (sample, draws): axis 1 and axis -1 are the same one; no axis means axis 0
+                if cat[1] is None:
+                    self.fail(e, 'axis of the concatenation is not a constant')
+                if cat[1] == 'below':
+                    return replace(d, dist=f'{d.dist}-concatenated-along-axis-0')
                 if isinstance(m, Neg) and m.of == d:
                     good = d.sym or d.dist == 'normal'
                     return replace(d, anti=True, count=Count('N') if d.count == 'N/2' else Count(f'2*({d.count})'),
@@ -404,11 +431,10 @@ def _base_generators(ctx: Ctx) -> None:
     rets = [n for n in walk_no_nested(f.node) if isinstance(n, ast.Return)]
     ok = False
     det = unparse(rets[0].value) if rets else ''
-    if len(rets) == 1 and isinstance(rets[0].value, ast.Call) and (dotted(rets[0].value.func) or '').endswith('concatenate'):
-        c = rets[0].value
-        ax = next((k.value for k in c.keywords if k.arg == 'axis'), None)
-        if isinstance(c.args[0], ast.Tuple) and len(c.args[0].elts) == 2 and ax is not None and unparse(ax) == '1':
-            a, b = c.args[0].elts
+    cat_ = concat_axis(rets[0].value) if len(rets) == 1 and isinstance(rets[0].value, ast.Call) else None
+    if cat_ is not None:
+        if isinstance(cat_[0], (ast.Tuple, ast.List)) and len(cat_[0].elts) == 2 and cat_[1] == 'beside':
+            a, b = cat_[0].elts
             nm = unparse(a)
             ts = ToSympy()
             try:
@@ -427,16 +453,19 @@ def _base_generators(ctx: Ctx) -> None:
             ok = mirror and half
     stacked = None
     if not ok:
-        for cc in [x for x in walk_no_nested(f.node) if isinstance(x, ast.Call) and dotted(x.func) in ('np.concatenate', 'numpy.concatenate') and x.args and isinstance(x.args[0], ast.Tuple) and len(x.args[0].elts) == 2]:
-            a_, b_ = cc.args[0].elts
+        for cc in [x for x in walk_no_nested(f.node) if isinstance(x, ast.Call)]:
+            cat_ = concat_axis(cc)
+            if cat_ is None or not (isinstance(cat_[0], (ast.Tuple, ast.List)) and len(cat_[0].elts) == 2):
+                continue
+            a_, b_ = cat_[0].elts
             try:
                 ts_ = ToSympy()
                 mir = equal(ts_(b_), 1 - ts_.sym(unparse(a_)))
             except AnalysisError:
                 mir = False
-            ax_ = next((k.value for k in cc.keywords if k.arg == 'axis'), cc.args[1] if len(cc.args) > 1 else None)
-            if mir and (ax_ is None or unparse(ax_) != '1'):
-                stacked = f'{unparse(cc)[:80]}: the mirror images are concatenated along axis {unparse(ax_) if ax_ is not None else 0} (below the generated block), not beside it: observation i no longer receives its draws followed by their mirror images'
+            # the blocks are (sample, draws): only axis 0 (also the default, also -2) puts the mirror images below the generated block
+            if mir and cat_[1] == 'below':
+                stacked = f'{unparse(cc)[:80]}: the mirror images are concatenated along axis 0 (below the generated block), not beside it: observation i no longer receives its draws followed by their mirror images'
     ctx.add('C11.R2', 'draws.get_antithetic', ok if (ok or stacked) else None, f, 'returns (d, 1-d) along axis 1 with d = uniform_draws(sample_size, int(n/2))' if ok else (stacked or f'antithetic construction not recognised: {det}'), det, positive=bool(stacked))
     # normal antithetic
     f = prog.func(DR, 'get_normal_wichura_draws')
@@ -444,15 +473,15 @@ def _base_generators(ctx: Ctx) -> None:
     halves = [a for i in ifs for a in i.body if isinstance(a, ast.Assign) and unparse(a.targets[0]) == 'number_of_draws']
     ok1 = len(halves) == 1 and unparse(halves[0].value).replace(' ', '') in ('int(number_of_draws/2.0)', 'int(number_of_draws/2)', 'number_of_draws//2')
     even = any(isinstance(n, ast.If) and 'number_of_draws % 2' in unparse(n.test) and any(isinstance(x, ast.Raise) for x in n.body) for i in ifs for n in i.body)
-    cat = [a for i in ifs for a in i.body if isinstance(a, ast.Assign) and isinstance(a.value, ast.Call) and (dotted(a.value.func) or '').endswith('concatenate')]
+    cat = [a for i in ifs for a in i.body if isinstance(a, ast.Assign) and isinstance(a.value, ast.Call) and concat_axis(a.value) is not None]
     ok2 = False
     det = ''
     if len(cat) == 1:
         c = cat[0].value
         det = unparse(cat[0])
-        ax = next((k.value for k in c.keywords if k.arg == 'axis'), None)
-        if isinstance(c.args[0], ast.Tuple) and len(c.args[0].elts) == 2 and ax is not None and unparse(ax) == '1':
-            a, b = c.args[0].elts
+        cat_ = concat_axis(c)
+        if cat_ is not None and isinstance(cat_[0], (ast.Tuple, ast.List)) and len(cat_[0].elts) == 2 and cat_[1] == 'beside':
+            a, b = cat_[0].elts
             ok2 = unparse(b) == f'-{unparse(a)}' and unparse(cat[0].targets[0]) == unparse(a)
             rets = [n for n in walk_no_nested(f.node) if isinstance(n, ast.Return)]
             ok2 = ok2 and rets and unparse(rets[-1].value) == unparse(a)
